@@ -26,3 +26,18 @@ Definition k_sem (p : prog) (N : nat) (vars : list var) : list (list Z) :=
 Definition k_enum (p : prog) (N : nat) : list Z :=
   let ps := enum_run (sim_sample no_law) (parse_prog p 0) N st0 in
   Z.of_nat (List.length ps) :: zq (mass (law_of ps)).
+
+(* the same three entry points for a program given directly in the parsed form (Assignment
+   objects with condition and default): used to exercise  condition ? right side : state[default] *)
+Definition k_pscript (p : pprog) (N : nat) (vars : list var) (sc : script) : list Z :=
+  match sim_run (sim_sample no_law) p N st0 sc with
+  | Some (w, tr, rest) => 1%Z :: Z.of_nat (List.length rest) :: (zq w ++ flat_map (zstate vars) tr)
+  | None => [0%Z]
+  end.
+Definition k_pscripts (p : pprog) (N : nat) (vars : list var) (scs : list script) : list (list Z) :=
+  map (k_pscript p N vars) scs.
+Definition k_psem (p : pprog) (N : nat) (vars : list var) : list (list Z) :=
+  map (fun n => flat_map (fun ws => zq (fst ws) ++ zstate vars (snd ws)) (prun (sim_sample no_law) p n st0)) (seq 0 (S N)).
+Definition k_penum (p : pprog) (N : nat) : list Z :=
+  let ps := enum_run (sim_sample no_law) p N st0 in
+  Z.of_nat (List.length ps) :: zq (mass (law_of ps)).
